@@ -1,0 +1,15 @@
+//go:build !verif
+
+package common
+
+// VerifEnabled is false unless the package is built with the `verif` tag;
+// every verification hook is guarded by it and compiled out.
+const VerifEnabled = false
+
+func VerifTracing() bool { return false }
+
+func VerifEvent(owner any, name string, fields map[string]any) {}
+
+func VerifIO(owner any, kind string, off int64, data []byte) (int, error) { return 0, nil }
+
+func VerifYield(owner any, point string) {}
